@@ -545,7 +545,7 @@ func b1Loop(c *Ctx, id string, fn *ssa.Function, l *natLoop, bm *ssa.Call, bs in
 			}
 			nUse++
 			as := fullArgs(cl)
-			ok2 := blkVal != nil && len(as) > 0 && rv(as[len(as)-1]) == blkVal
+			ok2 := blkVal != nil && len(as) > 0 && (rv(as[len(as)-1]) == blkVal || rv(as[len(as)-1]) == rv(blkVal))
 			R.Check(ok2, id, key(fmt.Sprintf("%s of the block of this round", cal.Name())), P.Pos(cl.Pos()), "the block read or addressed is the one bmap returned for this round's index", "result of this round's bmap", "the block touched is not the one mapped for this round: the bytes land in (or come from) another block of the file or of another file")
 			if cal == V.ReadBlock {
 				bufs = append(bufs, cl)
@@ -1731,13 +1731,152 @@ func sameAdd(a, b ssa.Value) bool {
 // which the object's kind is NF3DIR.
 func ruleB17(c *Ctx, id string) {
 	V, P, R := c.V, c.P, c.R
-	R.Rule(id, "RMDIR removes only directories: in RMDIR's code (the shared routine read with the arguments RMDIR passes), every path to dir.RemName takes the edge 'Kind == NF3DIR' of an inode other than the directory searched", 1)
+	R.Rule(id, "RMDIR removes only directories: in RMDIR's code (the shared routine read with the arguments RMDIR passes, predicate helpers included), every path to dir.RemName takes the edge 'Kind == NF3DIR' of an inode other than the directory searched", 1)
 	rmdir := c.fn(id, "nfs.(*Nfs).NFSPROC3_RMDIR")
 	rem := c.fn(id, "dir.RemName")
 	if rmdir == nil || rem == nil {
 		return
 	}
 	dirK := constOfPkg(P, "nfstypes", "NF3DIR")
+	type edge struct{ from, to *ssa.BasicBlock }
+	// the edges of fn that cannot be taken (a flag the caller binds to a constant) or that establish "is a directory"
+	var blockedEdges func(fn *ssa.Function, sub Subst, skip ssa.Value, d int) map[edge]bool
+	// can fn (read with sub) answer with the given class - bool true/false, status OK/not OK - without taking a
+	// "is a directory" edge?
+	canAnswer := func(fn *ssa.Function, sub Subst, idx int, wantTrue bool, d int) bool {
+		blocked := blockedEdges(fn, sub, nil, d)
+		seen := map[*ssa.BasicBlock]bool{}
+		work := []*ssa.BasicBlock{fn.Blocks[0]}
+		for len(work) > 0 {
+			b := work[len(work)-1]
+			work = work[:len(work)-1]
+			if seen[b] {
+				continue
+			}
+			seen[b] = true
+			if r, isR := b.Instrs[len(b.Instrs)-1].(*ssa.Return); isR && idx < len(r.Results) {
+				v := stripConv(r.Results[idx])
+				if bv, isb := constBool(v); isb {
+					if bv == wantTrue {
+						return true
+					}
+				} else if k, isk := constInt(v); isk {
+					if (k == 0) == wantTrue {
+						return true
+					}
+				} else {
+					return true // not a constant: may be either
+				}
+			}
+			for _, sx := range b.Succs {
+				if !blocked[edge{b, sx}] {
+					work = append(work, sx)
+				}
+			}
+		}
+		return false
+	}
+	blockedEdges = func(fn *ssa.Function, sub Subst, skip ssa.Value, d int) map[edge]bool {
+		blocked := map[edge]bool{}
+		for _, br := range branches(fn) {
+			if br.True == noSide || br.False == noSide {
+				continue
+			}
+			x := sub.resolve(stripConv(br.Cond.X))
+			if br.Cond.Op == token.ILLEGAL {
+				if bv, isb := constBool(x); isb {
+					if bv {
+						blocked[edge{br.Block, br.False}] = true
+					} else {
+						blocked[edge{br.Block, br.True}] = true
+					}
+					continue
+				}
+			}
+			// a comparison of two values the caller's arguments make constant ("want == removeDirOnly")
+			if (br.Cond.Op == token.EQL || br.Cond.Op == token.NEQ) && br.Cond.Y != nil {
+				y := sub.resolve(stripConv(br.Cond.Y))
+				eq, known := false, false
+				if b1, ok1 := constBool(x); ok1 {
+					if b2, ok2 := constBool(y); ok2 {
+						eq, known = b1 == b2, true
+					}
+				} else if k1, ok1 := constInt(x); ok1 {
+					if _, isC := x.(*ssa.Const); isC {
+						if k2, ok2 := constInt(y); ok2 {
+							if _, isC2 := y.(*ssa.Const); isC2 {
+								eq, known = k1 == k2, true
+							}
+						}
+					}
+				}
+				if known {
+					holds := eq == (br.Cond.Op == token.EQL)
+					if holds {
+						blocked[edge{br.Block, br.False}] = true
+					} else {
+						blocked[edge{br.Block, br.True}] = true
+					}
+					continue
+				}
+			}
+			// a predicate helper asked: the side on which it cannot have answered without the directory test
+			var call *ssa.Call
+			idx := 0
+			switch y := stripConv(br.Cond.X).(type) {
+			case *ssa.Call:
+				call = y
+			case *ssa.Extract:
+				if cl, isC := y.Tuple.(*ssa.Call); isC {
+					call, idx = cl, y.Index
+				}
+			}
+			if call != nil && d < 2 {
+				if h := staticCallee(call); h != nil && IsRepoFunc(h) && h.Blocks != nil && h != fn && relPkg(h) == "nfs" {
+					hs := Subst{}
+					as := fullArgs(call)
+					for i, q := range h.Params {
+						if i < len(as) {
+							hs[q] = sub.resolve(stripConv(as[i]))
+						}
+					}
+					isStatus := br.Cond.Op == token.EQL || br.Cond.Op == token.NEQ
+					if k, isk := constInt(stripConv(br.Cond.Y)); br.Cond.Y != nil && (!isk || k != 0) {
+						isStatus = false
+					}
+					if br.Cond.Op == token.ILLEGAL || isStatus {
+						// the side that means "answered true / OK"
+						okSide, otherSide := br.True, br.False
+						if br.Cond.Op == token.NEQ {
+							okSide, otherSide = br.False, br.True
+						}
+						if !canAnswer(h, hs, idx, true, d+1) {
+							blocked[edge{br.Block, okSide}] = true
+						}
+						if !canAnswer(h, hs, idx, false, d+1) {
+							blocked[edge{br.Block, otherSide}] = true
+						}
+					}
+					continue
+				}
+			}
+			if br.Cond.Y == nil {
+				continue
+			}
+			nm, fl, base, _ := loadedField(br.Cond.X)
+			k, isk := constInt(stripConv(br.Cond.Y))
+			if nm != V.Inode || fl != "Kind" || !isk || k != dirK || (skip != nil && sub.resolve(stripConv(base)) == skip) {
+				continue
+			}
+			switch br.Cond.Op {
+			case token.EQL:
+				blocked[edge{br.Block, br.True}] = true
+			case token.NEQ:
+				blocked[edge{br.Block, br.False}] = true
+			}
+		}
+		return blocked
+	}
 	n := 0
 	for _, sc := range scopesOf(rmdir) {
 		sc := sc
@@ -1745,35 +1884,7 @@ func ruleB17(c *Ctx, id string) {
 			n++
 			R.Analysed[FuncName(sc.Fn)] = true
 			as := fullArgs(ci)
-			dipArg := stripConv(as[0])
-			type edge struct{ from, to *ssa.BasicBlock }
-			blocked := map[edge]bool{}
-			for _, br := range branches(sc.Fn) {
-				if br.Cond.Op == token.ILLEGAL {
-					if bv, isb := constBool(sc.S.resolve(stripConv(br.Cond.X))); isb {
-						if bv {
-							blocked[edge{br.Block, br.False}] = true
-						} else {
-							blocked[edge{br.Block, br.True}] = true
-						}
-					}
-					continue
-				}
-				if br.Cond.Y == nil {
-					continue
-				}
-				nm, fl, base, _ := loadedField(br.Cond.X)
-				k, isk := constInt(stripConv(br.Cond.Y))
-				if nm != V.Inode || fl != "Kind" || !isk || k != dirK || stripConv(base) == dipArg {
-					continue
-				}
-				switch br.Cond.Op {
-				case token.EQL:
-					blocked[edge{br.Block, br.True}] = true
-				case token.NEQ:
-					blocked[edge{br.Block, br.False}] = true
-				}
-			}
+			blocked := blockedEdges(sc.Fn, sc.S, sc.S.resolve(stripConv(as[0])), 0)
 			seen := map[*ssa.BasicBlock]bool{}
 			work := []*ssa.BasicBlock{sc.Fn.Blocks[0]}
 			for len(work) > 0 {
@@ -1977,47 +2088,35 @@ func ruleB22(c *Ctx, id string) {
 	if rn == nil || V.DecLink == nil {
 		return
 	}
-	// the unlink: inode.DecLink itself, or a function of package nfs through which it is reached (doDecLink)
-	reachMemo := map[*ssa.Function]bool{}
-	isUnlink := func(f *ssa.Function) bool {
-		if f == V.DecLink {
-			return true
-		}
-		if f == nil || !IsRepoFunc(f) || relPkg(f) != "nfs" || f == rn {
-			return false
-		}
-		if v, ok := reachMemo[f]; ok {
-			return v
-		}
-		r := P.Reach([]*ssa.Function{f}, func(g *ssa.Function) bool { return !IsRepoFunc(g) })[V.DecLink]
-		reachMemo[f] = r
-		return r
-	}
 	n := 0
-	for _, sc := range scopesOf(rn) {
-		if sc.Fn != rn && isUnlink(sc.Fn) {
-			continue // the unlink helper's own body: judged at its call
-		}
-		for _, ci := range P.CallsIn(sc.Fn, isUnlink) {
+	scopes := scopesOf(rn)
+	for _, sc := range scopes {
+		// the unlink itself (inode.DecLink), wherever in RENAME's code and helpers it is written; the comparison of
+		// the kinds is looked for there and, through the call sites, in the enclosing functions up to RENAME
+		for _, ci := range P.CallsIn(sc.Fn, funcIs(V.DecLink)) {
 			n++
 			R.Analysed[FuncName(sc.Fn)] = true
-			g := guardedBy(sc.Fn, ci.Block(), func(cd Cond) (bool, bool) {
-				if cd.Y == nil {
+			mk := func(sub Subst) func(Cond) (bool, bool) {
+				return func(cd Cond) (bool, bool) {
+					if cd.Y == nil {
+						return false, false
+					}
+					n1, f1, b1, _ := loadedFieldS(cd.X, sub)
+					n2, f2, b2, _ := loadedFieldS(cd.Y, sub)
+					if n1 != V.Inode || n2 != V.Inode || f1 != "Kind" || f2 != "Kind" || b1 == nil || b2 == nil || sub.resolve(stripConv(b1)) == sub.resolve(stripConv(b2)) {
+						return false, false
+					}
+					switch cd.Op {
+					case token.EQL:
+						return true, true
+					case token.NEQ:
+						return true, false
+					}
 					return false, false
 				}
-				n1, f1, b1, _ := loadedField(cd.X)
-				n2, f2, b2, _ := loadedField(cd.Y)
-				if n1 != V.Inode || n2 != V.Inode || f1 != "Kind" || f2 != "Kind" || b1 == nil || b2 == nil || stripConv(b1) == stripConv(b2) {
-					return false, false
-				}
-				switch cd.Op {
-				case token.EQL:
-					return true, true
-				case token.NEQ:
-					return true, false
-				}
-				return false, false
-			})
+			}
+			// directly, or through a predicate helper whose good answer is given only on the equal side
+			g := guardedUp(scopes, sc, ci.Block(), mk)
 			R.Check(g, id, fmt.Sprintf("NFSPROC3_RENAME|replaced object has the kind of the renamed one#%d", n), P.Pos(ci.Pos()), "the unlink of the replaced object lies on the side where the two kinds are equal", "kinds compared, equal side", "an object can be replaced by one of another kind (the comparison covers one direction only, or is gone): RENAME of a directory onto a regular file succeeds, the file is freed")
 		}
 	}
